@@ -157,9 +157,9 @@ def impl(t, case):
             vals[name] = vsrc
     # non-default init fields must precede nothing in particular: init=False fields take no part in __init__
     pre = P.PREAMBLE
-    for c in P.EARLY:
-        base = P.SUPERS[c][0] + mod.sfx if P.SUPERS[c] else "ASTNode"
-        pre += P.node_cls_src(c + mod.sfx, base, False)
+    sup = [(P.s_(x.args[0]), [P.s_(y) for y in x.args[1]]) for x in t.args[0]]
+    for c, ss in sorted(sup, key=lambda p: len(p[1])):        # bases first
+        pre += P.node_cls_src(c + mod.sfx, (ss[0] + mod.sfx) if ss else "ASTNode", False)
     try:
         mod.run(pre)
         mod.run("".join(f"{n} = NewType({n!r}, {b})\n" for n, b in ctx.newtypes))
@@ -168,7 +168,7 @@ def impl(t, case):
         mod.m._DEFAULTS = {k: eval(s, mod.m.__dict__) for k, s in defaults.items()}
         kwargs = {k: eval(s, mod.m.__dict__) for k, s in vals.items()}
         mod.run(("from __future__ import annotations\n" if future else "")
-                + f"@dataclass(frozen=True)\nclass {kname}(ASTNode):\n" + "\n".join(lines) + "\n")
+                + f"@dataclass(frozen=True)\nclass {kname}(ASTNode):\n" + "\n".join(lines or ["    pass"]) + "\n")
         K = getattr(mod.m, kname)
         built = {}
         obs = {}
